@@ -1,4 +1,100 @@
 import JSight.Model.Descr
-import JSight.Model.Location
+import JSight.Proofs.C15
+/-!
+C15 — description / annotation normal forms.  Property theorems only; helper lemmas are in
+`JSight/Proofs/C15.lean`.
+-/
 namespace JSight.C15
+open JSight
+
+/-- (1) line ends are normalised: no CR survives -/
+theorem normNL_no_cr (b : Bytes) : B.cr ∉ normNL b := normNL_no_cr' b
+
+/-- (2) a description never contains CR -/
+theorem description_no_cr (b d : Bytes) (h : description b = .ok d) : B.cr ∉ d :=
+  description_no_cr' b d h
+
+/-- (3) the annotation text is stable: normalising twice changes nothing -/
+theorem annotation_idempotent (s : Bytes) : annotation (annotation s) = annotation s :=
+  annotation_idempotent' s
+
+/-- (4) surrounding blanks are immaterial (the `//` and `/* */` spellings deliver the same bytes up to them) -/
+theorem annotation_surrounding_blanks (s : Bytes) : annotation (B.sp :: (s ++ [B.sp])) = annotation s :=
+  annotation_surrounding_blanks' s
+
+/-- (5) in an annotation every white-space run is a single space: no TAB/LF/FF/CR, no two spaces in a row -/
+theorem annotation_collapsed (s : Bytes) :
+    (∀ c ∈ annotation s, c = B.sp ∨ isReSpace c = false) ∧
+    ∀ pre post, annotation s ≠ pre ++ B.sp :: B.sp :: post :=
+  ⟨collapseWsAux_mem false _, fun pre post => collapseWsAux_no_double false _ pre post⟩
+
+/-- (6) a description has no trailing white space and no leading blank line -/
+theorem description_trimmed (b d : Bytes) (h : description b = .ok d) :
+    d.getLast?.all (fun c => !isTrimRightSet c) :=
+  description_last b d h
+
+/-- (6, second half) a description has no leading blank line: `trimLeadingBlankLines` finds nothing to drop -/
+theorem description_no_leading_blank_line (b d : Bytes) (h : description b = .ok d) :
+    trimLeadingBlankLines d = d :=
+  (description_nf b d h).no_blank_head
+
+/-- every result of `description` is in normal form: no CR, no leading blank line, no trailing white
+space, and no white-space prefix common to all non-blank lines -/
+theorem description_normal_form (b d : Bytes) (h : description b = .ok d) : NF d :=
+  description_nf b d h
+
+/-- the text looks like "( … )" (so that `description` would strip the parentheses again) -/
+def parenShaped (d : Bytes) : Prop :=
+  let t := trimBoth isAsciiSpace d
+  2 ≤ t.length ∧ t.head? = some B.lpar ∧ t.getLast? = some B.rpar
+
+/-- a normal form that does not look like "( … )" is a fixed point -/
+theorem description_nf_fixed (d : Bytes) (hn : NF d) (hp : ¬ parenShaped d) : description d = .ok d :=
+  description_nf_fixed' d hn hp
+
+/-- (7) normalising twice changes nothing, unless the normal form itself looks like "( … )".
+
+History (finding F27): on the model of the code *before* the repair `dde7910` (where
+`longestWhitespacePrefix` skipped only empty lines, not white-space-only lines) this statement was
+false: `b = "  a\n \n  b"` (hex 2020610a200a202062) gave `d = " a\n\n b"`, and `description d` gave
+`"a\n\nb"`.  With the repaired rule the same input gives `"a\n \nb"`, which is stable (see the
+examples below). -/
+theorem description_idempotent (b d : Bytes) (h : description b = .ok d) (hp : ¬ parenShaped d) :
+    description d = .ok d :=
+  description_nf_fixed d (description_nf b d h) hp
+
+/-! ### non-vacuity checks -/
+
+deriving instance DecidableEq for Except
+
+instance (d : Bytes) : Decidable (parenShaped d) := by unfold parenShaped; exact inferInstance
+
+/-- `"  foo\n    bar\n"` ↦ `"foo\n  bar"` -/
+example : description [32,32,102,111,111,10,32,32,32,32,98,97,114,10]
+    = .ok [102,111,111,10,32,32,98,97,114] := by decide
+
+/-- `"(\n a\n)"` ↦ `"a"` -/
+example : description [40,10,32,97,10,41] = .ok [97] := by decide
+
+/-- `"(a)"` is rejected -/
+example : description [40,97,41] = .error .parens := by decide
+
+/-- CR LF and CR are line ends: `"  a\r\n  b\r"` ↦ `"a\nb"` -/
+example : description [32,32,97,13,10,32,32,98,13] = .ok [97,10,98] := by decide
+
+/-- F27 regression: `"  a\n \n  b"` ↦ `"a\n \nb"`, and that is a fixed point -/
+example : description [32,32,97,10,32,10,32,32,98] = .ok [97,10,32,10,98] := by decide
+example : description [97,10,32,10,98] = .ok [97,10,32,10,98] := by decide
+
+/-- the exclusion in (7) is needed: `"(\n(\na\n)\n)"` ↦ `"(\na\n)"` ↦ `"a"` -/
+example : description [40,10,40,10,97,10,41,10,41] = .ok [40,10,97,10,41] := by decide
+example : parenShaped [40,10,97,10,41] := by decide
+example : description [40,10,97,10,41] = .ok [97] := by decide
+
+/-- `"  a \t b "` ↦ `"a b"` -/
+example : annotation [32,32,97,32,9,32,98,32] = [97,32,98] := by decide
+
+/-- VT is trimmed at the ends but is not collapsed inside: `"\x0b a\x0b\x0b b"` ↦ `"a\x0b\x0b b"` -/
+example : annotation [11,32,97,11,11,32,98] = [97,11,11,32,98] := by decide
+
 end JSight.C15
